@@ -18,6 +18,22 @@ var realCommon = []string{"biostuff formats/* (the package under test, built fro
 
 // Metas lists the claimed properties.
 var Metas = map[string]*Meta{
+	"C06": {
+		Level: "exploration",
+		Rule: "A run draws a format, a size class (tiny<=14 B, small, medium 4-10 KiB, large 70-200 KiB), an input kind (generated well-formed text, mutated, raw noise over the format's delimiters) and compares, against the one-shot in-memory decode: " +
+			"every partition of inputs <= 14 bytes x both EOF placements, every single cut (<= 400 B), every pair of cuts (<= 60 B), 5-8 sampled delivery plans (1-byte, uniform, geometric, delimiter-hunting, buffer-boundary, whole; stalls; EOF with data); the CRLF rendering of well-formed text under three plans; File on plain/.gz/multi-member .gz copies; unopenable paths. " +
+			"distinct_nontrivial counts distinct (format, input, delivery sequence actually executed | storage configuration) triples for sampled plans and single cuts (exhaustively enumerated partitions and pairs are counted separately under probes.exhaustive/*; a case is non-trivial iff the reference decode did not panic).",
+		Assumptions: []string{
+			"the one-shot decode through bytes.Reader is the reference; the check is differential and never asserts what the right decode is (C01-C05, C11 are not decided here)",
+			"error items compare by position and non-nil-ness; a text-only difference is counted as probe error_text_differs",
+			"stalls (0,nil) are limited to two consecutive ones, legal per io.Reader and far below bufio's 100-empty-read limit",
+			"'well-formed' for the CRLF clause is established by the LF decode being error-free",
+			"inputs are sampled; the partition dimension is enumerated completely only for inputs <= 14 bytes",
+		},
+		Components: map[string]any{"real": realCommon, "simulated_environment": []string{"io.Reader (sim.Stream: delivery plan)", "storage: scratch directory on the real file system with plain / .gz / two-member .gz / missing / missing parent / path through a regular file"}, "stubbed": []string{}},
+		Runs:       map[string]int{"quick": 1600, "thorough": 80000},
+		Run:        RunC06,
+	},
 	"C07": {
 		Level: "fault_enumeration",
 		Rule: "A run draws one case from the run PRNG: (read) a format and a generated well-formed text whose fault-free decode is verified error-free, then EVERY fault offset 0..len x {error once then EOF, error forever} x {error alone, error with the last chunk} under one of three delivery plans; " +
